@@ -39,5 +39,15 @@ add("C08", "exploration",
     "Relies on maps being right (C03 checks them); inside containers the removed prefix is only required to match the container-prefix grammar.",
     "property-based testing (Hypothesis; tab-respelling and edge-blank code-span generators); oracle: source-line reference model (exact at top level, validity predicate in containers)",
     "DESIGN.md section 4, C08")
+add("C09", "exploration",
+    "Generated search over single-line texts t x two spelling forms (backslash before every ASCII punctuation character; per-character mix of raw/backslash/decimal/hex/named references) x 12 context documents (paragraph, heading, emphasis, link text, image alt, link title with edge blanks, six table-cell shapes) x 2 presets; the rendering must equal the context's fixed HTML frame around the independently escaped t, byte for byte.",
+    "Expected output comes from an own 4-replacement escaper and fixed frames; named references from Python's HTML5 table; NUL/CR/LF excluded from t.",
+    "property-based testing (Hypothesis); oracle: explicit expected output (reference model of literal text)",
+    "DESIGN.md section 4, C09")
+add("C10", "exploration",
+    "Generated (document x configuration x option values) search with four clauses: token kinds present must have an enabled producer under an independent rule->kind table (also for instances reconfigured after use); table/strikethrough on == off for documents without their trigger; inline_definitions/store_labels change nothing but definition tokens/label metadata (tokens, env, HTML modulo line breaks after tags); constructor, item and attribute option routes are indistinguishable.",
+    "The active rule set is modelled by the harness from preset tables + enable/disable lists; attribute route only for options with a property on OptionsDict.",
+    "property-based testing (Hypothesis); oracle: reachability table (reference model) + differential relations (rule on/off, option on/off, three option routes)",
+    "DESIGN.md section 4, C10")
 ALL = ["C%02d" % i for i in range(1, 21)]
 NA = [{"property_id": p, "reason": "check under construction in this round; not claimed until its oracle is built and shown quiet on the unchanged tree"} for p in ALL if p not in CHECKS]
